@@ -1,6 +1,8 @@
 package patch
 
 import (
+	"fmt"
+	"strings"
 	"testing"
 
 	"github.com/tencent/goom/internal/zzverif/vh"
@@ -10,6 +12,15 @@ func TestVerifC15(t *testing.T) {
 	out := vh.OpenOut()
 	defer out.Close()
 	for _, op := range vh.ReadOps() {
+		if len(op.Toks) == 3 && op.Toks[0] == "c15.cap" && op.Toks[1] == "i386" {
+			bs := vh.UnHex(op.Toks[2])
+			res := vh.Catch(func() string { return fmt.Sprintf("patched=%v", checkAlreadyPatch(bs)) })
+			if strings.HasPrefix(res, "panic") {
+				res = "panic"
+			}
+			out.Put(op.Idx, "%s", res)
+			continue
+		}
 		if len(op.Toks) != 4 || op.Toks[0] != "emit" || op.Toks[1] != "i386.entry" {
 			continue
 		}
